@@ -88,7 +88,7 @@ impl<T, const D: usize> IndexMut<[usize; D]> for Tensor<T, D> {
 
 impl<T: PartialEq, const D: usize> PartialEq for Tensor<T, D> {
     fn eq(&self, other: &Self) -> bool {
-        self.data == other.data
+        self.dims == other.dims && self.data == other.data
     }
 }
 
